@@ -195,6 +195,14 @@ func (b *BinaryExpression) SQL() string {
 	if prec == precComparison {
 		leftMin = prec + 1
 	}
+
+	// NOT EXISTS (...) is recorded as {Left: EXISTS, Operator: "NOT", Right: nil, Not: true}.
+	// Handled before the operands are rendered: rendering Left twice per level would make
+	// nested NOT EXISTS cost 2^depth.
+	if b.Right == nil && upperOp == "NOT" {
+		return "NOT " + operandSQL(b.Left, precNot)
+	}
+
 	left := operandSQL(b.Left, leftMin)
 	right := operandSQL(b.Right, rightMin)
 
@@ -204,11 +212,6 @@ func (b *BinaryExpression) SQL() string {
 			return fmt.Sprintf("%s IS NOT NULL", left)
 		}
 		return fmt.Sprintf("%s %s", left, upperOp)
-	}
-
-	// NOT EXISTS (...) is recorded as {Left: EXISTS, Operator: "NOT", Right: nil, Not: true}
-	if b.Right == nil && upperOp == "NOT" {
-		return "NOT " + operandSQL(b.Left, precNot)
 	}
 
 	if b.Not {
